@@ -10,6 +10,7 @@ pub mod fork;
 pub mod jsonw;
 pub mod p_channel;
 pub mod p_halflock;
+pub mod p_kernel;
 pub mod pool;
 pub mod probe;
 pub mod rng;
